@@ -39,29 +39,35 @@ pub fn version_code(h: &Hello) -> &'static str {
     }
 }
 pub fn ja4(h: &Hello, original: bool) -> Ja4Ref {
-    ja4_reading(h, original, false)
+    ja4_reading(h, original, 0)
 }
 /// true when the first ALPN value starts or ends with an ASCII character that is not a letter or digit: the published
 /// JA4 revisions differ there (the characters themselves / the first and last hex digit of the value's bytes)
 pub fn alpn_has_two_readings(h: &Hello) -> bool {
     let alpn = h.exts.iter().find_map(|e| if let Ext::Alpn(p) = e { p.first().cloned() } else { None });
     match alpn {
-        Some(p) if !p.is_empty() && p.is_ascii() => !p.chars().next().map(|c| c.is_ascii_alphanumeric()).unwrap_or(true) || !p.chars().last().map(|c| c.is_ascii_alphanumeric()).unwrap_or(true),
+        Some(p) if !p.is_empty() => !p.chars().next().map(|c| c.is_ascii_alphanumeric()).unwrap_or(true) || !p.chars().last().map(|c| c.is_ascii_alphanumeric()).unwrap_or(true),
         _ => false,
     }
 }
-pub fn ja4_reading(h: &Hello, original: bool, hex_alpn: bool) -> Ja4Ref {
+/// readings of the two ALPN characters: 0 = the first and last character, a character outside ASCII shown as '9';
+/// 1 = the first and last hex digit of the value's bytes; 2 = "99" when the value starts outside ASCII
+pub fn ja4_reading(h: &Hello, original: bool, reading: u8) -> Ja4Ref {
     let ver = version_code(h);
     let sni = if h.exts.iter().any(|e| matches!(e, Ext::Sni(_))) { 'd' } else { 'i' };
     let ciphers: Vec<u16> = h.ciphers.iter().filter(|x| !is_grease(**x)).copied().collect();
     let etypes: Vec<u16> = h.exts.iter().map(ext_type).filter(|x| !is_grease(*x)).collect();
     let alpn = h.exts.iter().find_map(|e| if let Ext::Alpn(p) = e { p.first().cloned() } else { None });
     let (a1, a2) = match alpn {
-        Some(p) if !p.is_empty() && hex_alpn => {
+        Some(p) if !p.is_empty() && reading == 1 => {
             let hx: String = p.bytes().map(|b| format!("{b:02x}")).collect();
             (hx.chars().next().unwrap_or('0'), hx.chars().last().unwrap_or('0'))
         }
-        Some(p) if !p.is_empty() => (p.chars().next().unwrap_or('0'), p.chars().last().unwrap_or('0')),
+        Some(p) if !p.is_empty() && reading == 2 && !p.chars().next().map(|c| c.is_ascii()).unwrap_or(true) => ('9', '9'),
+        Some(p) if !p.is_empty() => {
+            let nine = |c: char| if c.is_ascii() { c } else { '9' };
+            (p.chars().next().map(nine).unwrap_or('0'), p.chars().last().map(nine).unwrap_or('0'))
+        }
         _ => ('0', '0'),
     };
     let a = format!("t{ver}{sni}{:02}{:02}{a1}{a2}", ciphers.len().min(99), etypes.len().min(99));
